@@ -74,6 +74,12 @@ func (l *Lexer) ReadChar() {
 	l.readPosition++
 }
 
+// atEnd reports whether the cursor is past the last character. A NUL byte
+// inside the input is an ordinary (illegal) character, not the end.
+func (l *Lexer) atEnd() bool {
+	return l.position >= len(l.input)
+}
+
 // PeekChar returns the next character without advancing the lexer position.
 func (l *Lexer) PeekChar() byte {
 	if l.readPosition >= len(l.input) {
@@ -103,7 +109,7 @@ func (l *Lexer) readLeadingComments() {
 			l.ReadChar()
 
 			var comment strings.Builder
-			for l.CurrentChar != '\n' && l.CurrentChar != 0 {
+			for l.CurrentChar != '\n' && !l.atEnd() {
 				comment.WriteByte(l.CurrentChar)
 				l.ReadChar()
 			}
@@ -259,7 +265,7 @@ func (l *Lexer) readString(delimiter byte) string {
 
 	for {
 		l.ReadChar()
-		if l.CurrentChar == 0 {
+		if l.atEnd() {
 			break
 		}
 		// Handle escape sequences
@@ -404,7 +410,7 @@ func (l *Lexer) readRawString() string {
 	var result strings.Builder
 	for {
 		l.ReadChar()
-		if l.CurrentChar == 0 {
+		if l.atEnd() {
 			break
 		}
 		// Handle escaped backticks
